@@ -90,7 +90,7 @@ def gen_mix(rng: random.Random, tier):
 
 def gen_cases(tier, seed):
     rng = random.Random(f"c05-{seed}")
-    n_mix, n_seq, n_free = (140, 60, 6) if tier == "quick" else (20000, 8000, 400)
+    n_mix, n_seq, n_free = (420, 200, 10) if tier == "quick" else (20000, 8000, 400)
     cases = []
     for i in range(n_mix):
         s = rng.getrandbits(32)
